@@ -150,10 +150,7 @@ func (g *Gen) appendSeq(st *State, cur, b Val) Val {
 		}
 		return Val{T: g.def("buf", "(Array Int Int)", arr), Len: g.def("bl", "Int", fmt.Sprintf("(+ %s %d)", cur.Len, k)), Off: cur.Off, Kind: "slice"}
 	}
-	arr := g.newSym("buf", "(Array Int Int)")
-	q := "k!app"
-	g.assume(st, fmt.Sprintf("(forall ((%s Int)) (and (=> (and (<= 0 %s) (< %s %s)) (= (select %s (+ %s %s)) (select %s (+ %s %s)))) (=> (and (<= 0 %s) (< %s %s)) (= (select %s (+ %s %s %s)) (select %s (+ %s %s))))))",
-		q, q, q, cur.Len, arr, cur.Off, q, g.arr(st, cur), cur.Off, q, q, q, b.Len, arr, cur.Off, cur.Len, q, g.arr(st, b), b.Off, q))
+	arr := g.seqJoin(st, "buf", g.arr(st, cur), cur.Off, cur.Len, g.arr(st, b), b.Off, b.Len, cur.Off)
 	return Val{T: arr, Len: g.def("bl", "Int", fmt.Sprintf("(+ %s %s)", cur.Len, b.Len)), Off: cur.Off, Kind: "slice"}
 }
 
@@ -210,11 +207,7 @@ func (g *Gen) builtin(fn *ssa.Function, st *State, bi *ssa.Builtin, call *ssa.Ca
 		r := g.freshRef(st)
 		var k int
 		if _, err := fmt.Sscan(b.Len, &k); err != nil || k > 32 {
-			na := g.newSym("appended", "(Array Int Int)")
-			q := "k!ap"
-			aArr := g.arr(st, a)
-			g.assume(st, fmt.Sprintf("(forall ((%s Int)) (and (=> (and (<= 0 %s) (< %s %s)) (= (select %s %s) (select %s (+ %s %s)))) (=> (and (<= 0 %s) (< %s %s)) (= (select %s (+ %s %s)) (select %s (+ %s %s))))))",
-				q, q, q, a.Len, na, q, aArr, a.Off, q, q, q, b.Len, na, a.Len, q, g.arr(st, b), b.Off, q))
+			na := g.seqJoin(st, "appended", g.arr(st, a), a.Off, a.Len, g.arr(st, b), b.Off, b.Len, "0")
 			g.setHs(st, r, na)
 			nl := g.def("len", "Int", fmt.Sprintf("(+ %s %s)", a.Len, b.Len))
 			g.safety(st, "appendlen", pos, fmt.Sprintf("(<= %s %s)", nl, maxInt))
@@ -476,6 +469,18 @@ func (g *Gen) callCommon(fn *ssa.Function, st *State, call *ssa.CallCommon, resu
 		res = g.symFor(rt.At(0).Type(), "ret_"+dispName, st)
 	default:
 		res = g.symFor(rt, "ret_"+dispName, st)
+	}
+	{
+		argRefs := map[string]bool{}
+		for _, a := range args {
+			valRefs(a, argRefs)
+		}
+		g.distinctFromFresh(st, res, argRefs)
+		if cc == nil || !cc.Pure {
+			for _, a := range args {
+				g.markEscape(st, a)
+			}
+		}
 	}
 	if cc != nil && cc.Returns != "" {
 		res = Val{T: cc.Returns, Kind: "int"}
